@@ -8,7 +8,7 @@ PROPS="$@"
 WT=${SEED_WT:-/tmp/wt/SEED}
 [ -z "$PROPS" ] && PROPS=$(python3 -c "import json;print(' '.join(c['property_id'] for c in json.load(open('/verif/MANIFEST.json'))['checks']))")
 if [ ! -d $WT ]; then git -C /repo worktree add -q --detach $WT HEAD || exit 2; fi
-cd $WT && git checkout -q -- . && git checkout -q --detach $(git -C /repo rev-parse HEAD) && git apply /verif/seeded/$ID/patch.diff || { echo "$ID: patch failed"; exit 2; }
+cd $WT && git checkout -q -- . && git checkout -q --detach $(git -C /repo rev-parse HEAD) && git apply ${SEED_DIR:-/verif/seeded}/$ID/patch.diff || { echo "$ID: patch failed"; exit 2; }
 cd /verif
 export GUARD_REPO=$WT VERIF_EVIDENCE_DIR=${WT}_evidence
 mkdir -p $VERIF_EVIDENCE_DIR
